@@ -7,6 +7,21 @@ ids = [p["id"] for p in props]
 
 # id -> (category, technique, level text, level note, design ref)
 CHECKS = {
+ "C06": ("model_checking",
+         "explicit-state BFS over the real market actor with a reference escrow ledger in lock-step",
+         "Every history up to the depth bound of deposits, withdrawals (5 amounts x 4 callers x client/provider), publications of batches with valid/duplicate/foreign/badly-signed deals, activations through both entry points, settlements, terminations and time steps over deal boundaries is executed on the real market (real miner actors as providers); after every step each party's escrow and locked balance, the market-wide totals, the burnt amount and every withdrawal's amount and recipient must equal a reference ledger in which locked = sum over unfinished deals of collateral + unpaid fee.",
+         "mcvm stands in for the FVM; miner-side calls impersonated; sparse ticking over long spans; amounts from a small alphabet; <=3 publications per history.",
+         "DESIGN.md §3 C06"),
+ "C07": ("model_checking",
+         "explicit-state BFS over settlement/cron/termination schedules of the real market actor against a closed-form payment model",
+         "For activated (and one unactivated) deals every schedule up to the depth bound of settlement calls, termination and time steps over the timeline {start-1,start,start+1, first cron epoch.., mid, end-1,end,end+1, late} is executed; each settlement must pay exactly price x newly elapsed epochs in [start, min(end, termination)), cron may only time out unactivated proposals after start or pay up to its own epoch, and when the deal is gone provider/client/burnt totals must equal the closed form - so all schedules reaching the same end are compared through the same ledger (path independence).",
+         "mcvm stands in for the FVM; sparse ticking (real cron at scheduled epochs and at targets); two deal shapes; minimum duration only.",
+         "DESIGN.md §3 C07"),
+ "C08": ("model_checking",
+         "explicit-state BFS over publish/activate histories of the real market actor against a lifecycle model",
+         "Every history up to the depth bound of publish batches (duplicates within and across messages, same proposal with client named by ID or key address, stranger-signed and tampered signatures, foreign provider, unaffordable fee, non-controlling callers) and activation attempts (both entry points, wrong provider, expiring sector, wrong piece, repeated ids in and across sectors, unknown id, after start) with time steps is executed; returned ids must be fresh and sequential, exactly the model's entries accepted, activation accepted exactly when provider = caller, epoch <= start, sector outlives deal and not yet activated, and un-activated proposals past start are removed with the provider collateral burnt.",
+         "mcvm stands in for the FVM; fake signatures bound to signer; the 'still pending after activation' corner is adopted from the implementation.",
+         "DESIGN.md §3 C08"),
  "C12": ("model_checking",
          "explicit-state BFS over the real multisig actor with a quorum reference model in lock-step",
          "Every interleaving up to the depth bound of propose/approve/cancel by three signers and an outsider (with no/right/wrong proposal hash), direct admin calls, self-administration transactions (add/remove/swap signer by ID and by key address, threshold, lock), re-entrant self Approve/Propose and time steps over the vesting lock is executed on the real actor from five base wallets; after every step accept/reject, the ordered list of sends leaving the wallet, signers, threshold, pending approvals, lock and balance must equal an independent quorum model that executes a transaction only with >= threshold distinct current signers, once, within the lock.",
